@@ -105,6 +105,9 @@ var c12classes = []c12class{
 	{"call-nil-value-prefix-form", `{{ zq_msi.absent: 1 }}`, true, false},
 	{"call-nil-value-in-expression", `{{ 1 + zq_msi.absent(1) }}`, true, false},
 	{"call-nil-value-piped", `{{ 1 | zq_msi.absent }}`, true, false},
+	{"call-nil-value-without-arguments", `{{ zq_msi.absent() }}`, true, false},
+	{"call-nil-variable-without-arguments", `{{ zq_hook := nil }}{{ zq_hook() }}`, true, false},
+	{"call-nil-value-without-arguments-in-expression", `{{ "" + zq_msi.absent() }}`, true, false},
 	{"call-non-func-paren", `{{ zq_i() }}`, true, false},
 	{"call-non-func-colon", `{{ zq_i: 1 }}`, true, false},
 	{"call-non-func-pipe", `{{ 1 | zq_i }}`, true, false},
